@@ -35,6 +35,7 @@ ASSUMPTIONS = [
 CASES = {'quick': 16000, 'thorough': 220000}
 TIME = {'quick': 70, 'thorough': 560}
 MIN_NONTRIVIAL = {'quick': 1500, 'thorough': 15000}
+NO_ASSERT_SHARDS = True     # odd shards: pokerkit's asserts compiled out
 REQUIRED = ('streets_completed', 'draw_rounds_checked', 'burns_checked',
             'default_dealee_checks', 'explicit_player_deals',
             'chunked_deals', 'fallback_streets', 'folded_player_streets',
